@@ -40,7 +40,7 @@ def plan_c15(seed: int) -> dict:
             spec["ech"] = None
         specs.append(spec)
         for k in range(rng.randint(1, 3)):
-            inputs[f"s{si}k{k}"] = gen.gen_input(rng, spec, max_side=8, max_inst=4, allow_1d=True)
+            inputs[f"s{si}k{k}"] = gen.gen_input(rng, spec, max_side=8, max_inst=4, allow_1d=True, exotic=True)
     ops = []
     evs = []  # (ev id, spec idx)
     aggs = []  # (agg id, ev id)
